@@ -196,6 +196,53 @@ def run_c16(tier, seed):
             distinct.add(hist_lines[j])
             k = kinds_of(c["sent"])
             bykind[k] = bykind.get(k, 0) + 1
+    # nothing but commands changes the store: a key that got a TTL (EXPIRE) and was then written again (SET / GETSET / INCR / APPEND
+    # store a value without a TTL) is still there, with its last acknowledged value, after the old TTL has run out - whatever the
+    # server does about expiry happens as part of a command, not behind the commands' back (wall-clock wait of 1.4 s, three
+    # connections in one case; monitor only: the checker's command set has no time)
+    import storeprops as S
+    def prog(tag):
+        k, n, a = b"ttl" + tag, b"cnt" + tag, b"app" + tag
+        reqs = [("SET", [k, b"v1"]), ("EXPIRE", [k, b"1"]), ("SET", [k, b"v2"]), ("SET", [n, b"5"]), ("EXPIRE", [n, b"1"]), ("INCR", [n]), ("SET", [a, b"x"]), ("EXPIRE", [a, b"1"]), ("GETSET", [a, b"y"])]
+        after = [("GET", [k]), ("GET", [n]), ("INCR", [n]), ("SETNX", [k, b"other"]), ("GET", [a])]
+        want = [("$", b"v2"), ("$", b"6"), (":", b"7"), (":", b"0"), ("$", b"y")]
+        return reqs, after, want
+    tlines, tmeta = [], []
+    for rep_ in range(2 if tier == "quick" else 6):
+        steps, metas = [], []
+        for ci, tag in enumerate((b"A", b"B", b"C")):
+            reqs, after, want = prog(tag + b"%d" % rep_)
+            steps += [(ci, "f" + L.hx(RB(nm, a_))) for nm, a_ in reqs]
+            metas.append((len(reqs), after, want))
+        steps.append((0, "z1400"))
+        for ci, (_, after, _) in enumerate(metas):
+            steps += [(ci, "f" + L.hx(RB(nm, a_))) for nm, a_ in after]
+        steps += [(ci, "e") for ci in range(3)]
+        tlines.append(L.mkcase(steps, conns=3, handler="example", trace=False)); tmeta.append(metas)
+    rc_t, o_t, _ = vlib.run_harness(["conn"], "\n".join(tlines) + "\n", timeout=300)
+    outs_t = [l.split(" ", 1)[1] for l in o_t.splitlines() if " " in l and l.split(" ", 1)[0].isdigit()]
+    if rc_t != 0 or len(outs_t) != len(tlines):
+        chk.violation("ttl-run", "the run with expiring keys failed (status %d): %s" % (rc_t, o_t[-300:]), dict(stage="ttl"), "panic" not in o_t)
+    ttl_ok = 0
+    for line_t, metas, a_t in zip(tlines, tmeta, outs_t):
+        obs = L.Obs(a_t)
+        for ci, (npre, after, want) in enumerate(metas):
+            if ci >= len(obs.conns):
+                continue
+            reps_t = []
+            for off, payload, failed in L.writes_of(obs.conns[ci][1]):
+                try:
+                    reps_t.append(S.parse_reply(payload)[0])
+                except Exception:
+                    reps_t.append(("?", payload))
+            got = [(r[0], r[1]) for r in reps_t[npre:npre + len(after)]]
+            if got != want:
+                j = next((i for i in range(len(want)) if i >= len(got) or got[i] != want[i]), 0)
+                chk.violation("write-undone-by-timer", "connection %d: SET / EXPIRE 1 / overwrite (the new value has no TTL), 1.4 s later %s is answered %r, the last acknowledged write makes it %r "
+                              "(something other than a command changed the store)" % (ci, req_desc(*after[j]), got[j] if j < len(got) else None, want[j]), dict(case=line_t, connection=ci, got=repr(got), expected=repr(want)))
+                break
+            ttl_ok += 1
+    chk.coverage["overwritten_ttl_keys_checked"] = ttl_ok
     # static tie: every call into the application's handler is made under one exclusive lock (access table regenerated
     # from the source by the lockset translator; the same table C14 checks)
     import lockprops
